@@ -295,6 +295,31 @@ def _check_units(w):
             return {**base, "key": f"units:value:{q}:{u}",
                     "what": f"PGN {w['pgn']} field {f0.id}: {f0.value!r} {f0.unit_of_measurement} -> {f1.value!r} {u}, exact "
                             f"{float(ex)!r} (payload {w['payload']}, preferences {w['prefs']})"}
+    # multi-frame messages: delivered frame by frame (EByte packets) the reassembled message carries the same converted
+    # values as the pre-assembled line gave
+    if any(x["PGN"] == w["pgn"] and x.get("Type") == "Fast" for x in db()):
+        from props import c10 as H10
+        dst = 255
+        frames = H10.fast_frames(by, 3)
+        for who, kw in (("with preferences", {"preferred_units": prefs}), ("without preferences", {})):
+            d2 = new_decoder(build_network_map=True, **kw)
+            last = None
+            try:
+                for f in frames:
+                    last = d2.decode_tcp(H10.mk_pkt(w["pgn"], 1, dst, 2, (f + bytes([0xFF] * 8))[:8], 8))
+            except Exception as e:  # noqa: BLE001
+                last = e
+            got = snap(last)
+            if got is None or len(got) != len(snaps[who]):
+                return {**base, "key": "units:frame-by-frame-differs",
+                        "what": f"PGN {w['pgn']} payload {w['payload']} preferences {w['prefs']}: delivered as {len(frames)} frames the "
+                                f"decoder {who} returns {last!r}"}
+            for x, y in zip(snaps[who], got):
+                if not _same(x[1], y[1]) or x[2] != y[2] or not _same(x[3], y[3]):
+                    return {**base, "key": "units:frame-by-frame-differs",
+                            "what": f"PGN {w['pgn']} payload {w['payload']} preferences {w['prefs']}, decoder {who}: field {x[0]} is "
+                                    f"{x[1]!r} {x[2]!r} from the pre-assembled line, {y[1]!r} {y[2]!r} when the message arrives as "
+                                    f"{len(frames)} frames"}
     # the same payload again (devices repeat an unchanged reading many times a second): each decoder returns what it
     # returned the first time — a conversion is applied to the message being returned, once
     for rep in (2, 3):
